@@ -107,7 +107,7 @@ def task_case(outs, final, pos, mask, rng):
 
 
 def action_case(call, seq, mask):
-    setup = ['na'] if call[0] == 'f' else []
+    setup = ['na'] if call.lstrip('k')[0] == 'f' else []
     a = len(setup)
     ops = [f'act:{call}'] + [(f'run:{a}' if s == 'r' else f'can:{a}') for s in seq]
     groups = []
@@ -176,6 +176,8 @@ def random_case(rng, nops):
         elif c in ('rpc', 'act'):
             fin = rng.choice(['r', 'x', 'b', 'f'] if envs() else ['r', 'x', 'b'])
             spec = fin + (str(rng.choice(envs())) if fin == 'f' else str(rng.randrange(9)))
+            if c == 'act' and rng.random() < 0.25:
+                spec = 'k' + spec
             cur.append(f'{c}:{spec}'); kinds.append(('k', 'adp') if c == 'rpc' else ('a', 'act'))
         elif c == 'comm':
             aios = envs('a')
@@ -273,7 +275,7 @@ def gen_cases(ctx):
                     for m in masks(nf + 1, rng, nf <= 1, extra=0):
                         cases.append(task_case(list(outs), final, pos, m, rng))
     # F. CancellableAction: every sequence of run / cancel
-    for call in ['r5', 'f0', 'x2', 'b1']:
+    for call in ['r5', 'f0', 'x2', 'b1', 'kr5', 'kx2', 'kb1']:
         for ln in range(1, (5 if th else 4) + 1):
             for seq in itertools.product('rc', repeat=ln):
                 for m in masks(ln + 1, rng, ln <= 2, extra=0):
@@ -434,6 +436,14 @@ def monitor_action(case, steps):
                 calls = 1
                 if n_calls != 1:
                     return [fail(case, 'action-not-run', 'run() calls the function', dict(step=i, calls=n_calls))]
+                if call[0] == 'k':
+                    # superseded while it ran: it stays cancelled (what run() raises then is left to the correspondence)
+                    want = 'C'
+                    if got != want:
+                        return [fail(case, 'action-outcome', 'an action cancelled while it runs stays cancelled',
+                                     dict(step=i, ret=ret, got=got, want=want))]
+                    st = want
+                    continue
                 want = {'r': 'V' + call[1:], 'x': 'Xu' + call[1:], 'f': 'Ra(P)', 'b': None}[call[0]]
                 if want is not None and (got != want or ret != 'ok'):
                     return [fail(case, 'action-outcome', 'reports its outcome (value or exception) through itself',
